@@ -70,6 +70,34 @@ def run_op(js, d, sc, v, res, h, op, table, snap):
             except js.exceptions.RefResolutionError:
                 pass
             flush()
+        elif op["op"] == "inscope":
+            class Boom(Exception):
+                pass
+            try:
+                with res.in_scope("sub/dir/"):
+                    try:
+                        res.resolve(sc["refs"][op["i"] - 1])
+                    except js.exceptions.RefResolutionError:
+                        pass
+                    if op.get("via") == "raise":
+                        raise Boom()
+            except Boom:
+                pass
+            flush()
+        elif op["op"] == "resolving":
+            class Boom2(Exception):
+                pass
+            try:
+                with res.resolving(sc["refs"][op["i"] - 1]):
+                    try:
+                        res.resolve("#")
+                    except js.exceptions.RefResolutionError:
+                        pass
+                    if op.get("via") == "raise":
+                        raise Boom2()
+            except (Boom2, js.exceptions.RefResolutionError):
+                pass
+            flush()
         elif op["op"] == "toggle":
             h.failing.clear()
     except js.exceptions.RefResolutionError:
@@ -130,7 +158,7 @@ def main(args):
                "not/disallow before a local reference, anyOf/oneOf/contains/if over references, the same pointer string meaning different things in two documents) the script of every "
                "instance is measured on a fresh validator with a tracing resolver and validated against the model "
                "(Conforms); TLC enumerates every history of <= %d operations (exhaust, is_valid/validate, take-2-then-"
-               "close/drop, direct resolve, handler toggle), executes the model and exports the expected outputs; each "
+               "close/drop, direct resolve, the in_scope and resolving context managers with a body that raises, handler toggle), executes the model and exports the expected outputs; each "
                "history is replayed on ONE real validator object, comparing outputs, resolution scope, and deep snapshots "
                "of instance, schema and store. Non-trivial: history with >= 2 operations touching references; distinct "
                "by (draft, scenario, history)." % (3 if quick else 4, 4 if quick else 5, 7, 2 if quick else 3))
@@ -153,8 +181,17 @@ def main(args):
             fail = [scen.measure(d, sc, I, True, table) for I in sc["instances"]] if sc["remote"] else ok
             cls_id = "id" if d <= 4 else "$id"
             base = sc["schema"].get(cls_id, "")
+            def resolves(ref, failing):
+                v0, r0, h0 = scen.build(d, sc, handler_fail=failing)
+                try:
+                    r0.resolve(ref)
+                    return True
+                except js.exceptions.RefResolutionError:
+                    return False
             scens.append({"base": enc_str(base), "ok": ok, "fail": fail, "mode0": "fail" if sc["remote"] else "ok",
-                          "refs": [enc_str(x) for x in sc["refs"]]})
+                          "refs": [enc_str(x) for x in sc["refs"]],
+                          "refok": [resolves(x, False) for x in sc["refs"]],
+                          "refokfail": [resolves(x, bool(sc["remote"])) for x in sc["refs"]]})
             meta.append((d, sc, table, base))
     wd = tlc.workdir("c07")
     sf = os.path.join(wd, "scen.json")
@@ -169,7 +206,7 @@ def main(args):
         raise tlc.MachineryFailure("scenario model violated: " + r.violation)
     ck.add_tlc(r)
     # ---- replay every history on one real validator -----------------------------------------------------------
-    vias = {"first": ["is_valid", "validate"], "take": ["close", "drop"]}
+    vias = {"first": ["is_valid", "validate"], "take": ["close", "drop"], "inscope": ["plain", "raise"], "resolving": ["raise", "plain"]}
     for n, ex in enumerate(r.exports):
         d, sc, table, base = meta[ex["sc"] - 1]
         v, res, h = scen.build(d, sc, handler_fail=bool(sc["remote"]))
@@ -184,6 +221,7 @@ def main(args):
             got, status, restored, mutated = run_op(js, d, sc, v, res, h, op, table, snap)
             case = {"draft": d, "scenario": sc["name"], "schema": sc["schema"], "history": [
                 {"op": o["op"], "instance": sc["instances"][o["i"] - 1] if o["op"] in ("exhaust", "first", "take") else None,
+                 "ref": sc["refs"][o["i"] - 1] if o["op"] in ("resolve", "inscope", "resolving") else None,
                  "k": o["k"]} for o in hist[:k + 1]], "failing_step": k, "via": op.get("via"),
                 "expected_outputs": [(o["k"], dec_str(o["v"]) if o["k"] == "res" else o["v"]) for o in step["out"]],
                 "observed_outputs": got, "source": "MC_IterScen"}
